@@ -246,7 +246,7 @@ def run(ctx):
             ctx.stats["stream:%s:histories" % fid] += 1
             check_history(ctx, r, "finding:" + fid)
     # scripted family: a PMux whose inputs are related (ancestor / descendant, by rail or by name), then edits of the inputs
-    for _ in range(ctx.n(40, 600)):
+    for _ in range(ctx.n(70, 600)):
         r = H.Run(G.gen_init(ctx.rng, cfg))
         if r.init_outcome == "ok":
             G.mux_family(ctx.rng, r.apply)
